@@ -32,6 +32,28 @@ CHECKS = {
               'polyline path model; Part B checks split_candle on every valid lattice candle x price and on random candles.'),
         note='exhaustive only for the stated lattice sub-spaces; real-valued candles are sampled',
         ref='DESIGN.md section 3 C08'),
+    'C01': dict(
+        technique='two-run differential trace monitor (hyperproperty): identical prefix candles, adversarial replacement tails',
+        text=('Each base session is re-run with every candle from a chosen cut index onwards replaced (sweep across all resting '
+              'prices / jump away / random); the complete tracer logs (every hook with digests of every readable candle array, '
+              'price, position, balance, margin; every order event; every stored candle) must be identical up to the cut, in '
+              'both simulators. Cuts are chosen from the base trace where a peek would matter.'),
+        note='reach = scripted strategy family and route sets generated; prefix delimited by the simulated clock (normal) / chunk starts (fast)',
+        ref='DESIGN.md section 3 C01'),
+    'C07': dict(
+        technique='online hook monitor: every readable candle array vs independent aggregation of the readable 1m candles',
+        text=('Inside every strategy hook (regular steps and fill hooks) of random sessions, every (symbol, timeframe) array and '
+              'current candle is compared with the aggregation of the 1m candles readable at that instant, and the stored 1m '
+              'candles with the normalised input; generation helpers and the three timeframe tables are checked directly.'),
+        note='trusts vf/gen.aggregate and vf/gen.normalise; timeframes up to 6h driven',
+        ref='DESIGN.md section 3 C07'),
+    'C12': dict(
+        technique='two-run differential trace monitor: normal vs fast simulator under a precondition evaluated on the normal trace',
+        text=('Single-symbol sessions are run by both simulators; when the normal trace has <= 1 resting fill per trading-candle '
+              'window and no liquidation, executed orders (side, type, qty, price, fill minute), closed trades, final metrics and '
+              'balances must agree.'),
+        note='sessions failing the precondition are counted, never judged',
+        ref='DESIGN.md section 3 C12'),
 }
 
 NOT_YET = 'check under construction in this round (see DESIGN.md section 3); not claimed until it runs clean on the unchanged tree'
